@@ -23,7 +23,7 @@ RULE = ('cases: seeded worlds (SpaceWorld continuous, DiscreteWorld/GridWorld/Li
         'max(leeway, axis leeway) (seam-aware distance on positive-extent axes of wrapping worlds), in joining order. Non-trivial '
         'query: >=1 agent exactly on a face and the answer is neither empty nor everybody; distinct by (world, population, query).')
 ASSUMPTIONS = ['coordinates and leeways are multiples of 1/8 (exact float arithmetic)', 'F5 (wrap seam ignored) is a known finding, not repaired']
-FLOORS = {'quick': {'queries': 12000, 'queries_nonwrap': 6100, 'queries_wrap': 6300, 'on_face_agents': 5000, 'nonempty_answers': 4900,
+FLOORS = {'quick': {'queries_with_numpy_scalars': 1226, 'queries': 12000, 'queries_nonwrap': 6090, 'queries_wrap': 6135, 'on_face_agents': 5000, 'nonempty_answers': 4843,
                     'empty_answers': 2000, 'negative_leeway_queries': 1000, 'axis_leeway_larger': 3000, 'general_leeway_larger': 3000,
                     'query_outside_world': 2000, 'coincident_pairs': 500, 'big_worlds': 8, 'big_queries': 150, 'agents_with_position_subclass_component': 1000, 'second_world_on_same_model': 300, 'reach:Environments.SpaceWorld.get_agents_at': 12000},
           'thorough': {'queries': 1000000, 'on_face_agents': 400000}}
@@ -141,7 +141,13 @@ def case_world(ctx, case):
             ctx.count('coincident_pairs')
         # the call, with varying argument styles
         style = rng.random()
-        if style < 0.6:
+        if style < 0.15:
+            # the same numbers as numpy scalars (coordinates / leeways read from arrays)
+            import numpy as np
+            N = lambda v: (np.int64(v) if isinstance(v, int) else np.float64(v))    # noqa
+            got = env.get_agents_at(N(q[0]), N(q[1]), N(q[2]), N(L), N(AL[0]), N(AL[1]), N(AL[2]))
+            ctx.count('queries_with_numpy_scalars')
+        elif style < 0.6:
             got = env.get_agents_at(q[0], q[1], q[2], L, AL[0], AL[1], AL[2])
         elif style < 0.8:
             got = env.get_agents_at(x_pos=q[0], y_pos=q[1], z_pos=q[2], leeway=L, x_leeway=AL[0], y_leeway=AL[1], z_leeway=AL[2])
